@@ -319,7 +319,7 @@ func genTraceConc(t *rapid.T) TProg {
 }
 
 func genMetricConc(t *rapid.T) MProg {
-	p := MProg{Readers: genReaders(t), Prod: genProd(t)}
+	p := MProg{Readers: genReaders(t), Prod: genProd(t), Slow: genSlow(t), TmoMs: genTmo(t)}
 	p.Gs = genGs(t, genRawMOp(true))
 	p.Post = rapid.SliceOfN(genRawMOp(false), 0, 8).Draw(t, "post")
 	p.Runs = 2
